@@ -31,12 +31,12 @@ import zlib
 
 import numpy as np
 
-from mc import ScopeUnit, FAILED
+from mc import ScopeUnit, HistoryUnit, FAILED
 from mc.core import case_key
 from mc.state import reset_executors
 from mc.linalg import dense
 
-from prysm import interferogram as ig
+from prysm import interferogram as ig, fttools
 from prysm.interferogram import Interferogram
 
 ID = 'C13'
@@ -181,7 +181,7 @@ def height_maps(n0, n1, seed, complete):
 # ---------------------------------------------------------------------------------------------
 # judging one psd() output
 
-def judge_psd(R, out, h, dx, cands, wlabel, what, peak_bins=None, prefix='psd'):
+def judge_psd(R, out, h, dx, cands, wlabel, what, peak_bins=None, prefix='psd', eps=EPS):
     """Axes, Parseval, spectrum placed on its own axes.  Returns the name of the window matched (or None)."""
     n0, n1 = h.shape
     cls = pc(n0, n1)
@@ -213,8 +213,8 @@ def judge_psd(R, out, h, dx, cands, wlabel, what, peak_bins=None, prefix='psd'):
         S2 = float((w ** 2).sum())
         MS = float((hw ** 2).sum()) / S2
         ref = ref_psd(hw, dx) / S2
-        tolP = K * EPS * float(((h * wabs) ** 2).sum()) / S2
-        tolE = K * EPS * float(np.abs(h * wabs).sum()) ** 2 * dx * dx / S2
+        tolP = K * eps * float(((h * wabs) ** 2).sum()) / S2
+        tolE = K * eps * float(np.abs(h * wabs).sum()) ** 2 * dx * dx / S2
         pars_ok = abs(total - MS) <= tolP
         elem_ok = bool((np.abs(p - ref) <= tolE).all())
         scored.append((not (pars_ok and elem_ok), not pars_ok, name, MS, ref, tolE, tolP))
@@ -689,6 +689,217 @@ def run_synth(case, seed, R):
     R.outcome(f'synth:{fam}:{mk}')
 
 
+
+# ---------------------------------------------------------------------------------------------
+# user window arrays of every dtype a caller plausibly passes (aperture masks as boxcar windows)
+
+WDTYPES = ('float64', 'float32', 'bool', 'uint8', 'int64')
+
+
+def dtype_window(kind, dt, n0, n1):
+    i, j = np.indices((n0, n1))
+    if kind == 'ones':
+        w = np.ones((n0, n1))
+    elif kind == 'mask':      # 0/1 circular aperture about the n//2 origin
+        w = (((i - n0 // 2) ** 2 + (j - n1 // 2) ** 2) <= (min(n0, n1) / 2.0) ** 2).astype(float)
+    elif kind == 'ramp':      # small integers 0..6
+        w = ((3 * i + 5 * j) % 7).astype(float)
+    else:                     # 'frac': non-integer values (floating dtypes only)
+        w = 0.5 + ((3 * i + 5 * j) % 7) / 7.0
+    return w.astype(dt)
+
+
+def run_wdtype(case, seed, R):
+    n0, n1, dx, dt, kind = case['n0'], case['n1'], case['dx'], case['dtype'], case['kind']
+    try:
+        w = dtype_window(kind, dt, n0, n1)
+        wf = w.astype(np.float64)          # the numbers the caller passed, exactly
+        eps = float(np.finfo(np.float32).eps) if (dt == 'float32' and kind == 'frac') else EPS
+        maps = [(('const',), np.full((n0, n1), 1.5)), (('dense',), dense((n0, n1), seed, salt=41, complex_=False))]
+        d = np.zeros((n0, n1))
+        d[n0 // 2, n1 // 2] = 1.0
+        maps.append((('delta-centre',), d))
+        for label, h in maps:
+            # float32 sums of non-integers depend on the summation order at the 1e-7 level: no layout variants there
+            out = R.call(ig.psd, h.copy(), dx, w.copy(), hygiene=(eps == EPS))
+            judge_psd(R, out, h, dx, [(f'user:{dt}', wf, np.abs(wf))], f'user:{dt}',
+                      f'psd({n0}x{n1}, dx={dx}, window={kind} array of dtype {dt}) of {label}', eps=eps)
+        R.outcome(f'wdtype:{dt}')
+    finally:
+        prune(R)
+
+
+# ---------------------------------------------------------------------------------------------
+# history: module-level state shared between synthesis and analysis (frequency-vector caches ...)
+
+H_DX = 0.5        # size = (n-1) * H_DX round-trips exactly, so the synthesis and the analysis ask for the same (dx, n)
+H_SHAPES = ((8, 8), (9, 9), (8, 9))
+
+
+def h_alphabet():
+    evs = []
+    for n in (8, 9):
+        evs.append({'op': 'synth', 'n': n, 'psd': 'abc'})
+        evs.append({'op': 'synth', 'n': n, 'psd': 'ab'})
+        evs.append({'op': 'from_psd', 'n': n})
+        evs.append({'op': 'ft_unit', 'n': n})
+        evs.append({'op': 'blrms', 'n': n})
+        evs.append({'op': 'iblrms', 'n': n})
+    for (a, b) in H_SHAPES:
+        evs.append({'op': 'psd', 'n0': a, 'n1': b, 'window': 'user-ones'})
+        evs.append({'op': 'psd', 'n0': a, 'n1': b, 'window': 'auto'})
+        evs.append({'op': 'ipsd', 'n0': a, 'n1': b})
+    return evs
+
+
+_H_EVENTS = h_alphabet()
+
+
+def h_fresh(init, seed):
+    return {'seed': int(seed), 'hist': [], 'results': []}
+
+
+def h_events(init, h, state):
+    return _H_EVENTS
+
+
+def h_apply(state, ev, R):
+    op = ev['op']
+    seed = state['seed']
+    out = None
+    if op in ('synth', 'from_psd'):
+        n = ev['n']
+        size = (n - 1) * H_DX
+        np.random.seed((seed ^ zlib.crc32(case_key(ev).encode())) & 0xFFFFFFFF)
+        if op == 'synth':
+            fam = ev['psd']
+            out = R.call(ig.render_synthetic_surface, size, n, rms=1.0, mask=None,
+                         psd_fcn=ig.abc_psd if fam == 'abc' else ig.ab_psd, **PSD_PARAMS[fam][0])
+        else:
+            out = R.call(Interferogram.render_from_psd, size, n, rms=1.0, mask=None, **PSD_PARAMS['abc'][1])
+    elif op == 'ft_unit':
+        out = (R.call(fttools.forward_ft_unit, H_DX, ev['n']), R.call(fttools.forward_ft_unit, H_DX, ev['n'], False))
+    elif op == 'psd':
+        h = dense((ev['n0'], ev['n1']), seed, salt=43, complex_=False)
+        warg, _ = window_choice(ev['window'], h, H_DX)
+        out = R.call(ig.psd, h.copy(), H_DX, warg)
+    elif op == 'ipsd':
+        h = dense((ev['n0'], ev['n1']), seed, salt=43, complex_=False)
+        p = R.call(Interferogram(h.copy(), H_DX).psd)
+        if p is FAILED:
+            out = FAILED
+        else:
+            try:
+                out = (p.x, p.y, p.data)
+            except Exception as e:   # noqa
+                R.violation('Interferogram.psd:output', f'{type(e).__name__}: {e}')
+                out = FAILED
+    elif op == 'blrms':
+        n = ev['n']
+        h = dense((n, n), seed, salt=43, complex_=False)
+        P = ref_psd(h, H_DX) / (n * n)
+        r, cls, mids = radial_classes(n, n, H_DX)
+        m = len(mids)
+        a, b = float(mids[m // 3]), float(mids[(2 * m) // 3])
+        out = (R.call(ig.bandlimited_rms, r, P, flow=0.0, fhigh=None), R.call(ig.bandlimited_rms, r, P, flow=a, fhigh=b),
+               R.call(ig.bandlimited_rms, r, P, wllow=1 / b, wlhigh=1 / a))
+    elif op == 'iblrms':
+        n = ev['n']
+        out = R.call(Interferogram(np.full((n, n), 1.5), H_DX).bandlimited_rms, flow=0.0, fhigh=None)
+    state['hist'].append(ev)
+    state['results'].append(out)
+    return state
+
+
+def _flat(out):
+    if isinstance(out, (tuple, list)):
+        return [np.asarray(o) for o in out]
+    if hasattr(out, 'data') and not isinstance(out, np.ndarray):
+        return [np.asarray(out.data)]
+    return [np.asarray(out)]
+
+
+def h_check(state, init, history, R):
+    if not history:
+        return
+    ev, out = history[-1], state['results'][-1]
+    op = ev['op']
+    prev = history[-2]['op'] if len(history) > 1 else 'fresh'
+    pre = f'after[{prev}]:'
+    seed = state['seed']
+    try:
+        if out is FAILED or (isinstance(out, tuple) and any(o is FAILED for o in out)):
+            return
+        if op in ('synth', 'from_psd'):
+            n = ev['n']
+            z = out[2] if op == 'synth' else out.data
+            z = np.asarray(z)
+            if R.expect(z.shape == (n, n) and z.dtype.kind == 'f' and bool(np.isfinite(z).all()), pre + op + ':output', f'{ev}: z must be a finite {n}x{n} array'):
+                R.expect_close(float(np.sqrt(np.mean(z ** 2))), 1.0, 64 * EPS, pre + op + ':rms', f'{ev}: RMS of the synthesised surface')
+                R.nontrivial()
+        elif op == 'ft_unit':
+            n = ev['n']
+            ref = ref_axis(n, H_DX)
+            if R.expect_close(out[0], ref, 4 * EPS * np.abs(ref), pre + 'forward_ft_unit', f'forward_ft_unit({H_DX}, {n})'):
+                R.expect(out[0][n // 2] == 0, pre + 'forward_ft_unit', 'zero-frequency sample is not exactly 0')
+            i0 = (np.arange(n) + n // 2) % n
+            R.expect_close(out[1], ref[i0], 4 * EPS * np.abs(ref[i0]), pre + 'forward_ft_unit', f'forward_ft_unit({H_DX}, {n}, shift=False)')
+            R.nontrivial()
+        elif op in ('psd', 'ipsd'):
+            h = dense((ev['n0'], ev['n1']), seed, salt=43, complex_=False)
+            _, cands = window_choice(ev.get('window', 'auto'), h, H_DX)
+            judge_psd(R, out, h, H_DX, cands, ev.get('window', 'auto'), f'{ev} after {history[:-1]}',
+                      prefix=pre + ('psd' if op == 'psd' else 'Interferogram.psd'))
+        elif op == 'blrms':
+            n = ev['n']
+            h = dense((n, n), seed, salt=43, complex_=False)
+            P = ref_psd(h, H_DX) / (n * n)
+            r, cls, mids = radial_classes(n, n, H_DX)
+            m = len(mids)
+            cell = P / (n * H_DX) ** 2
+            ring = ring_mask(n, n)
+            MS = float(cell.sum())
+            ia, ib = m // 3, (2 * m) // 3
+            inb = (cls > ia) & (cls <= ib)
+            wants = ((MS, float((cell * ring).sum())), (float(cell[inb].sum()), float((cell * ring)[inb].sum())))
+            vals = [as_ms(R, v, pre + 'bandlimited_rms:output', str(ev)) for v in out]
+            if None not in vals:
+                for v, (U, E) in zip(vals[:2], wants):
+                    R.expect(abs(v - U) <= E + K * EPS * MS, pre + 'bandlimited_rms:band-integral', f'{ev}: rms^2={v!r}, integral over the band {U!r}, ring weight {E!r}')
+                R.expect(abs(vals[2] - vals[1]) <= K * EPS * MS, pre + 'bandlimited_rms:period-vs-frequency', f'{ev}: period form {vals[2]!r} vs frequency form {vals[1]!r}')
+                R.nontrivial()
+        elif op == 'iblrms':
+            n = ev['n']
+            h = np.full((n, n), 1.5)
+            v = as_ms(R, out, pre + 'Interferogram.bandlimited_rms:output', str(ev))
+            if v is not None:
+                _, cands = window_choice('auto', h, H_DX)
+                best = None
+                for name, w, wabs in cands:
+                    S2 = float((w ** 2).sum())
+                    cell = ref_psd(h * w, H_DX) / S2 / (n * H_DX) ** 2
+                    MS, E = float(cell.sum()), float((cell * ring_mask(n, n)).sum())
+                    dev = abs(v - MS) - E - K * EPS * float(((h * wabs) ** 2).sum()) / S2
+                    if best is None or dev < best[0]:
+                        best = (dev, name, MS, E)
+                R.expect(best[0] <= 0, pre + 'Interferogram.bandlimited_rms:fullband', f'{ev}: rms^2={v!r}, windowed mean square {best[2]!r} ({best[1]}), ring weight {best[3]!r}')
+                R.nontrivial()
+        # the same call twice in a row: identical answer (its own first run must not change its second)
+        if len(history) == 2 and history[0] == history[1]:
+            a, b = state['results'][0], state['results'][1]
+            if a is not FAILED and b is not FAILED:
+                fa, fb = _flat(a), _flat(b)
+                same = len(fa) == len(fb) and all(x.shape == y.shape and np.array_equal(x, y, equal_nan=True) for x, y in zip(fa, fb))
+                R.expect(same, f'history:{op}:repeat', f'{ev} gives a different answer the second time')
+        R.outcome(f'{prev}->{op}')
+    finally:
+        prune(R)
+
+
+def h_canon(state):
+    return tuple(case_key(e) for e in state['hist'])
+
+
 # ---------------------------------------------------------------------------------------------
 
 def plan(tier, seed):
@@ -698,13 +909,22 @@ def plan(tier, seed):
     shapes = sorted(((n0, n1) for n0 in range(3, B + 1) for n1 in range(3, B + 1)), key=lambda s: (s[0] * s[1], s))
     windows = ('user-ones', 'user-ramp', 'hann', 'welch', 'auto')
     psd_cases = [{'n0': a, 'n1': b, 'dx': dx, 'window': w} for (a, b) in shapes for dx in dxs for w in windows]
+    xdx = (1e-6, 1e6, 3e7)          # tiny / huge sample spacings: the physics is scale-invariant
+    psd_cases += [{'n0': a, 'n1': b, 'dx': dx, 'window': w} for (a, b) in shapes if a * b <= (20 if quick else 36)
+                  for dx in xdx for w in ('user-ones', 'welch')]
     big = [(26, 26), (26, 27), (27, 26), (27, 27)] + ([] if quick else [(76, 26), (27, 75), (50, 51)])
     auto_cases = [{'n0': a, 'n1': b, 'dx': dx, 'corners': [c0, c1, c2, c3]}
                   for (a, b) in big for dx in (1.0, 0.25)
                   for c0 in (0, 1) for c1 in (0, 1) for c2 in (0, 1) for c3 in (0, 1)]
-    w_cases = [{'n0': a, 'n1': b, 'dx': dx} for (a, b) in shapes for dx in dxs]
+    w_cases = [{'n0': a, 'n1': b, 'dx': dx} for (a, b) in shapes for dx in dxs + xdx]
     band_cases = [{'n0': a, 'n1': b, 'dx': dx, 'window': w, 'map': mp}
                   for (a, b) in shapes for dx in dxs for w in ('user-ones', 'hann', 'welch') for mp in ('const', 'sin', 'dense')]
+    band_cases += [{'n0': a, 'n1': b, 'dx': dx, 'window': w, 'map': mp}
+                   for (a, b) in shapes for dx in xdx for w in ('user-ones', 'welch') for mp in ('const', 'dense')]
+    wd_shapes = [(3, 4), (5, 5), (8, 7), (16, 16), (17, 18)] + ([] if quick else [(33, 31), (64, 64)])
+    wd_cases = [{'n0': a, 'n1': b, 'dx': dx, 'dtype': dt, 'kind': kind}
+                for (a, b) in wd_shapes for dx in (1.0, 0.25) for dt in WDTYPES
+                for kind in (('ones', 'mask') if dt == 'bool' else ('ones', 'mask', 'ramp', 'frac') if dt.startswith('float') else ('ones', 'mask', 'ramp'))]
     meth_cases = [{'n0': a, 'n1': b, 'dx': dx, 'map': mp} for (a, b) in shapes for dx in dxs for mp in ('const', 'sin', 'dense')]
     sizes = (10.0,) if quick else (10.0, 0.7)
     synth_cases = [{'samples': n, 'mask': mk, 'psd': fam, 'params': pi, 'rms': rms, 'size': size}
@@ -719,6 +939,10 @@ def plan(tier, seed):
                   'delta_i+delta_j; the PSD is a quadratic form of the data so the verdict covers every real map), otherwise every delta, a constant and one '
                   'seeded dense map; plus EVERY representable sinusoid (ky,kx).  Oracles: axes == (i-n//2)/(n dx) with an exact zero, Parseval, every PSD sample '
                   'vs an explicit-matrix DFT placed on the returned axes, peak bins read off the returned axes for sinusoids/constant.  Non-trivial when h*w != 0', reset=rs, chunk=3),
+        ScopeUnit('window_dtype', wd_cases, run_wdtype,
+                  f'shapes {wd_shapes} x dx x user window ARRAY of dtype {list(WDTYPES)} x content {{all ones, 0/1 circular aperture mask, small-integer ramp 0..6, '
+                  'non-integer ramp (floating dtypes)}} x maps {constant, dense, centre impulse}: same oracles as unit psd with the window converted exactly to float64 '
+                  '(threshold alphabet over dtype and sum-of-squares magnitude: 256 and 306 ones reach the uint8 wrap; not closed over the data dimension)', reset=rs),
         ScopeUnit('auto_window', auto_cases, run_auto,
                   f'shapes {big} (2% corner blocks non-empty) x dx x all 16 zero/non-zero patterns of the four corner blocks x {{dense, constant}}: the automatic '
                   'choice must be welch iff all four blocks are zero, hann otherwise; through psd() and Interferogram.psd()', reset=rs),
@@ -734,6 +958,11 @@ def plan(tier, seed):
         ScopeUnit('methods', meth_cases, run_methods,
                   f'every shape in [3..{B}]^2 x dx x map: Interferogram.psd (axes, r, Parseval, == psd()), Interferogram.bandlimited_rms on 4 quantile edges in both '
                   'forms (== function on the method\'s own PSD), total_integrated_scatter at 0 and 30 degrees', reset=rs),
+        HistoryUnit('pipeline_history', [{'dx': H_DX}], h_fresh, h_events, h_apply, h_check, h_canon, 2,
+                    f'every history of length <= 2 over the {len(_H_EVENTS)}-call alphabet {{render_synthetic_surface(n, abc/ab), Interferogram.render_from_psd(n), forward_ft_unit(dx, n) '
+                    '(both shifts), bandlimited_rms (function, 3 bands), Interferogram.bandlimited_rms for n in {8,9}; psd (user window / automatic) and Interferogram.psd on 8x8, 9x9, 8x9}} '
+                    f'in one process with dx = {H_DX} and size = (n-1) dx, so synthesis and analysis request the same (dx, n): after any preceding call every result must satisfy the '
+                    'fresh-state reference (axes exactly (i-n//2)/(n dx), Parseval, spectrum on its axes, band integrals, synthesised RMS) and a repeated call must reproduce itself', reset=rs),
         ScopeUnit('synthesis', synth_cases, run_synth,
                   'samples x mask {none, circle, half} x {abc_psd, ab_psd} x 2 parameter sets x rms {1, 3.7} x size: numpy.random seeded with seed XOR crc32(case) before '
                   'every call, rendered twice (bit-identical), RMS over the valid samples == requested, NaN exactly outside the mask; Interferogram.render_from_psd '
